@@ -17,7 +17,9 @@ RULE = (
     "separate run with run_recovery() x1 or x2 injected before step i (plus runs with a sweep every 3rd/5th step), "
     "compared with the sweep-free reference on statuses, ancestor-derived contexts and per-task execution counts "
     "(extra messages are fine, extra effects are not). (b) for every commit-point crash snapshot: recover;recover;drain "
-    "vs recover;drain under the C01 comparison. Non-trivial = sweep that pushed >= 1 message; distinct = (spec, multiset "
+    "vs recover;drain under the C01 comparison. (c) interleaving engine: a recovery sweep on its own thread racing one "
+    "handler (StartStage / StartTask / RunTask / CompleteTask / CompleteStage) from a durable cut point, every schedule with "
+    "<= 1 preemption plus a sample (quick) / all (thorough) with 2. Non-trivial = sweep that pushed >= 1 message; distinct = (spec, multiset "
     "of message types the sweep pushed, step class)."
 )
 ASSUMPTIONS = ["SQLite backend", "confluent workflow family (outcome independent of delivery order), so runs whose schedule diverges after the injected sweep are still comparable"]
@@ -30,6 +32,10 @@ def gen_cases(tier: str, seed: int) -> list[dict]:
     cases = [{"kind": "sweeps", "spec_i": i, "seed": seed, "order": o} for i in range(n) for o in (("fifo",) if tier == "quick" else ("fifo", "random"))]
     m = 6 if tier == "quick" else 40
     cases += [{"kind": "double", "spec_i": i * 3 % 18 if tier == "quick" else i, "seed": seed} for i in range(m)]
+    for spec in range(4):
+        for ty in PAIR_TYPES:
+            for nth in ((1,) if tier == "quick" else (0, 1, 2)):
+                cases.append({"kind": "pair", "spec": spec, "type": ty, "nth": nth, "seed": seed, "sample": 40 if tier == "quick" else 1500})
     return cases
 
 
@@ -124,5 +130,80 @@ def _uniq(vs: list[dict]) -> list[dict]:
     return out
 
 
+PAIR_TYPES = ["StartStage", "StartTask", "RunTask", "CompleteTask", "CompleteStage"]
+
+
+def _pair(case: dict) -> dict:
+    """(c) a recovery sweep running concurrently with one handler, statement-level interleaving."""
+    import os
+
+    from .. import interleave as il
+    from ..world import World
+
+    spec = [specs.diamond(True), specs.diamond(False), specs.synthetic(), specs.multitask()][case["spec"]]
+    ref = delivery_run(spec)
+    ty = case["type"]
+    # cut: the n-th message of that type is pending
+    w = World()
+    cut = None
+    try:
+        w.submit(spec)
+        seen = 0
+        for _ in range(300):
+            rows = w.rows()
+            if not rows:
+                break
+            ready = w.eligible(rows)
+            if ready and ready[0]["type"] == ty:
+                if seen == case["nth"]:
+                    path = os.path.join(il.env.scratch_dir(), f"cut-{os.getpid()}-{random.randrange(1 << 40)}.db")
+                    w.copy_db(path)
+                    cut = (path, ready[0]["id"])
+                    break
+                seen += 1
+            w.deliver(ready[0]["id"])
+    finally:
+        w.close()
+    obs: Counter = Counter()
+    keys: set = set()
+    violations = []
+    if cut is None:
+        return {"violations": [], "obs": {"cut_point_not_reached": 1}, "keys": []}
+    db, row = cut
+    try:
+        na = il.solo_length(db, row)
+        # solo length of a sweep: run it alone once
+        _, info = il.run_pair(db, [], il.Segments([("R", 10**6)]), extra_bodies={"R": lambda world: (lambda: world.run_recovery())}, drain=False)
+        nb = info["steps"].get("R", 20)
+        rng = random.Random(case["seed"] * 109 + case["spec"])
+        scheds = il.bound_schedules(na, nb, 2, names=("W0", "R"), sample=case["sample"], rng=rng)
+        for sc in scheds:
+            run, info = il.run_pair(db, [row], il.Segments(sc), extra_bodies={"R": lambda world: (lambda: world.run_recovery())}, max_steps=ref.steps * 4 + 80)
+            obs["evaluations"] += 1
+            if run is None:
+                obs["scheduler_watchdog"] += 1
+                continue
+            if info["switches"]:
+                obs["sweep_handler_schedules_with_switch"] += 1
+                keys.add(f"pair:{spec['name']}:{ty}:{info['trace_hash']}")
+            v = []
+            a, b = summarize(ref), summarize(run)
+            if a["wf"] != b["wf"] or a["stages"] != b["stages"]:
+                v.append(viol("C10/outcome-differs", f"sweep concurrent with {ty}: reference {a['wf']} {a['stages']} vs {b['wf']} {b['stages']}"))
+            for k, n in oracles.exec_counts(run.ledger).items():
+                if n > 1:
+                    v.append(viol("C10/execution-count-differs:extra", f"{k} executed {n} times after the cut (sweep concurrent with {ty})"))
+            v2, _ = c02.effect_oracles(spec, run, prop="C10")
+            v = _classify(v + v2, run)
+            for x in v:
+                x.update(spec=spec["name"], pair=ty, schedule=sc)
+            violations += v
+    finally:
+        os.unlink(db)
+    return {"violations": _uniq(violations), "obs": dict(obs), "keys": sorted(keys)}
+
+
 def run_case(case: dict) -> dict:
+    if case["kind"] == "pair":
+        return _pair(case)
     return _sweeps(case) if case["kind"] == "sweeps" else _double(case)
